@@ -206,6 +206,12 @@ class GunicornWebWorker(base.Worker):  # type: ignore[misc,no-any-unimported]
         # application code spawns subprocesses.
         signal.signal(signal.SIGCHLD, signal.SIG_DFL)
 
+    def handle_exit(self, sig: int, frame: FrameType | None) -> None:
+        self.alive = False
+
+        # wakeup closing process: graceful_timeout is running already
+        self._notify_waiter_done()
+
     def handle_quit(self, sig: int, frame: FrameType | None) -> None:
         self.alive = False
 
